@@ -48,6 +48,11 @@ pub trait GcManaged {
     fn verif_dead_range(&self) -> Option<(usize, usize)> {
         None
     }
+
+    #[cfg(feature = "verif_hooks")]
+    fn verif_is_borrowed(&self) -> bool {
+        false
+    }
 }
 
 type GcBoxPtr<T> = NonNull<GcBox<T>>;
@@ -513,6 +518,12 @@ impl Heap {
                     self.objects.push(obj);
                 } else {
                     obj.verif_freed.set(true);
+                    if obj.data.verif_is_borrowed() {
+                        verif::record_event(format!(
+                            "freed {} while a borrow of it is alive",
+                            obj.verif_type_name
+                        ));
+                    }
                     let range = obj.data.verif_dead_range();
                     verif::quarantine(obj.verif_type_name, range, Box::new(obj));
                 }
@@ -547,6 +558,11 @@ impl<T: GcManaged> GcManaged for RefCell<T> {
     #[cfg(feature = "verif_hooks")]
     fn verif_dead_range(&self) -> Option<(usize, usize)> {
         self.try_borrow().ok().and_then(|b| b.verif_dead_range())
+    }
+
+    #[cfg(feature = "verif_hooks")]
+    fn verif_is_borrowed(&self) -> bool {
+        self.try_borrow_mut().is_err()
     }
 }
 
